@@ -336,52 +336,110 @@ func runRecoverSections(c *Ctx, r *RuleRun) {
 			continue
 		}
 		buf := d.Call.Args[1]
-		// the read that fills the buffer
-		var rd *ssa.Call
-		for _, fc := range fcalls {
-			if fc.kind != "read" || !dominatesInstr(fc.call, d) {
-				continue
-			}
-			for _, a := range fc.call.Call.Args {
-				if a == buf {
-					rd = fc.call
+		// the read that fills the buffer and the last seek before it - in recover itself, or in a helper that
+		// positions the file, reads one section and returns the buffer
+		locate := func(fcalls []fileCall, buf ssa.Value, before ssa.Instruction) (rd, sk *ssa.Call, clean bool) {
+			for _, fc := range fcalls {
+				if fc.kind != "read" || (before != nil && !dominatesInstr(fc.call, before)) {
+					continue
+				}
+				for _, a := range fc.call.Call.Args {
+					if a == buf {
+						rd = fc.call
+					}
 				}
 			}
+			if rd == nil {
+				return
+			}
+			for _, fc := range fcalls {
+				if fc.kind == "seek" && dominatesInstr(fc.call, rd) && (sk == nil || dominatesInstr(sk, fc.call)) {
+					sk = fc.call
+				}
+			}
+			// no other read between the seek and this read
+			clean = sk != nil
+			if sk != nil {
+				for _, fc := range fcalls {
+					if fc.kind == "read" && fc.call != rd && dominatesInstr(sk, fc.call) && dominatesInstr(fc.call, rd) {
+						clean = false
+					}
+				}
+			}
+			if obj := p.CalleeObj(rd); obj != nil && funcIs(obj, "os", "File", "ReadAt") {
+				sk, clean = rd, true
+			}
+			return
+		}
+		subst := func(v ssa.Value) ssa.Value { return v }
+		lenOf := bufLen(buf)
+		var rd, sk *ssa.Call
+		var clean bool
+		if hc, isCall := buf.(*ssa.Call); isCall && hc.Call.StaticCallee() != nil && hc.Call.StaticCallee().Pkg == rec.Pkg && len(hc.Call.StaticCallee().Blocks) > 0 {
+			h := hc.Call.StaticCallee()
+			var hcalls []fileCall
+			eachInstr(h, func(ins ssa.Instruction) {
+				cl, ok := ins.(*ssa.Call)
+				if !ok {
+					return
+				}
+				obj := p.CalleeObj(cl)
+				if obj == nil {
+					return
+				}
+				switch {
+				case funcIs(obj, "os", "File", "Seek"):
+					hcalls = append(hcalls, fileCall{cl, "seek"})
+				case funcIs(obj, "os", "File", "Read"), funcIs(obj, "io", "", "ReadFull"), funcIs(obj, "os", "File", "ReadAt"):
+					hcalls = append(hcalls, fileCall{cl, "read"})
+				}
+			})
+			// the one buffer every return of the helper hands out
+			var hbuf ssa.Value
+			one := true
+			eachInstr(h, func(ins ssa.Instruction) {
+				if ret, ok := ins.(*ssa.Return); ok && len(ret.Results) >= 1 {
+					if hbuf != nil && retOperand(ret, 0) != hbuf {
+						one = false
+					}
+					hbuf = retOperand(ret, 0)
+				}
+			})
+			if hbuf != nil && one {
+				rd, sk, clean = locate(hcalls, hbuf, nil)
+				lenOf = bufLen(hbuf)
+				subst = func(v ssa.Value) ssa.Value {
+					if pr, ok := unconv(v).(*ssa.Parameter); ok {
+						for i, q := range h.Params {
+							if q == pr && i < len(hc.Call.Args) {
+								return hc.Call.Args[i]
+							}
+						}
+					}
+					return v
+				}
+			}
+		} else {
+			rd, sk, clean = locate(fcalls, buf, d)
 		}
 		r.Check(rd != nil, fn, label("read into the decoded buffer"), p.Pos(instrPos(d)), "the buffer that is decoded was filled from the file", "the buffer handed to "+s.typ+".Decode is never filled from the file (the read is missing or fills another buffer)")
 		if rd == nil {
 			continue
 		}
-		// the last seek before that read
-		var sk *ssa.Call
-		for _, fc := range fcalls {
-			if fc.kind == "seek" && dominatesInstr(fc.call, rd) && (sk == nil || dominatesInstr(sk, fc.call)) {
-				sk = fc.call
-			}
-		}
-		// no other read between the seek and this read
-		clean := sk != nil
-		if sk != nil {
-			for _, fc := range fcalls {
-				if fc.kind == "read" && fc.call != rd && dominatesInstr(sk, fc.call) && dominatesInstr(fc.call, rd) {
-					clean = false
-				}
-			}
-		}
-		if obj := p.CalleeObj(rd); obj != nil && funcIs(obj, "os", "File", "ReadAt") {
-			sk, clean = rd, true
-		}
 		if sk == nil || !clean {
 			r.Viol(fn, label("positioned"), p.Pos(instrPos(rd)), "the read of the "+s.typ+" section is not preceded by a seek of its own: it reads wherever the previous read left the file offset")
 			continue
 		}
-		offArg, whence := sk.Call.Args[1], int64(0)
+		offArg, whence := subst(sk.Call.Args[1]), int64(0)
 		if sk != rd {
-			whence, _ = constInt(sk.Call.Args[2])
+			whence, _ = constInt(subst(sk.Call.Args[2]))
 		} else {
-			offArg = rd.Call.Args[2]
+			offArg = subst(rd.Call.Args[2])
 		}
-		bl := bufLen(buf)
+		bl := lenOf
+		if bl != nil {
+			bl = subst(bl)
+		}
 		if s.typ == "Footer" {
 			off, isK := constInt(offArg)
 			n, isN := int64(0), false
@@ -417,7 +475,8 @@ func runRecoverMust(c *Ctx, r *RuleRun) {
 	fn := p.FnName(rec)
 	// the collection of table file names: append of a string to a []string in a loop
 	n := 0
-	eachInstr(rec, func(ins ssa.Instruction) {
+	// the collection may live in a helper of recover (sortedTableFiles)
+	eachInstrOf(localFns(p, rec), func(ins ssa.Instruction) {
 		cl, ok := ins.(*ssa.Call)
 		if !ok || !inLoop(cl.Block()) {
 			return
@@ -575,11 +634,17 @@ func runRecoverReplay(c *Ctx, r *RuleRun) {
 	}
 	// 2. early return only without files
 	var fileLoop *natLoop
+	isRead := func(ins ssa.Instruction) bool {
+		cl, ok := ins.(*ssa.Call)
+		return ok && cl.Call.StaticCallee() == walRead
+	}
+	// the body of the file loop may live in a helper (replay one file): the read counts at the call of the helper
+	readSite := p.liftMay(isRead)
 	for _, lp := range naturalLoops(rec) {
 		lp := lp
 		for b := range lp.body {
 			for _, ins := range b.Instrs {
-				if cl, ok := ins.(*ssa.Call); ok && cl.Call.StaticCallee() == walRead {
+				if _, isCall := ins.(*ssa.Call); isCall && readSite(ins) {
 					if fileLoop == nil || lp.header.Dominates(fileLoop.header) {
 						fileLoop = &lp
 					}
@@ -617,9 +682,13 @@ func runRecoverReplay(c *Ctx, r *RuleRun) {
 	}
 	// 3. every entry read is set in the memtable and written to the new wal
 	var entryLoop *natLoop
-	for _, lp := range naturalLoops(rec) {
+	entryFn := p.directHolder(rec, isRead)
+	if entryFn == nil {
+		entryFn = rec
+	}
+	for _, lp := range naturalLoops(entryFn) {
 		lp := lp
-		if lp.header == fileLoop.header || !fileLoop.body[lp.header] {
+		if entryFn == rec && (lp.header == fileLoop.header || !fileLoop.body[lp.header]) {
 			continue
 		}
 		entryLoop = &lp
@@ -647,7 +716,7 @@ func runRecoverReplay(c *Ctx, r *RuleRun) {
 			return ok && cl.Call.StaticCallee() == want.g
 		}
 		isIt := NewMustDo(p, direct).Instr // also through a helper that always does it
-		q := PathQuery{P: p, Fn: rec, Starts: []ssa.Instruction{entryLoop.header.Instrs[len(entryLoop.header.Instrs)-1]},
+		q := PathQuery{P: p, Fn: entryFn, Starts: []ssa.Instruction{entryLoop.header.Instrs[len(entryLoop.header.Instrs)-1]},
 			EdgeOK: func(bb *ssa.BasicBlock, i int) bool { return bb != entryLoop.header || bb.Succs[i] == body },
 			Avoid:  isIt, Target: func(i ssa.Instruction) bool { return i.Block() == entryLoop.header && instrIndex(i) == 0 }}
 		w := q.FindPath()
